@@ -68,6 +68,25 @@ def seed_docs(hs, A, tier, rng):
     return docs, names
 
 
+def _raw_docs():
+    h3, h2 = 'ver:"3.0"\n', 'ver:"2.0"\n'
+    out = []
+    for n in (30, 70, 150, 400):
+        out += [h3 + 'a\n' + '[' * n + '\n', h3 + 'a\n' + '{a:' * n + '\n', h3 + 'a\n' + '[' * n + ']' * n + '\n',
+                h3 + 'a\n' + '{a:' * n + '1' + '}' * n + '\n', 'ver:"3.0" m:' + '[' * n + '\na\n1\n',
+                h3 + 'a\n' + ('<<' + h3 + 'a\n') * min(n, 70) + '\n', h3 + 'a\n' + '"' + '\\' * n + '\n',
+                h3 + 'a\n' + '(' * n + '\n', h2 + 'a\n' + '[' * n + '\n']
+    for inner in ('[1]', '{k:1}', 'NA', 'Xs("p")', '<<' + h3 + 'x\n1\n>>', '<<' + h2 + 'x\n1\n>>'):
+        # a nested grid whose header says 2.0, with a second ver tag / a 3.0-only kind in its metadata, columns, cells
+        out += [h3 + 'a\n<<ver:"2.0" ver:"3.0"\nb\n%s\n>>\n' % inner, h3 + 'a\n<<ver:"2.0" m:%s\nb\n1\n>>\n' % inner,
+                h3 + 'a\n<<ver:"2.0"\nb t:%s\n1\n>>\n' % inner, h3 + 'a\n<<ver:"2.0" ver:"3.0" m:%s\nb\n1\n>>\n' % inner,
+                'ver:"2.0" ver:"3.0"\na\n%s\n' % inner, 'ver:"2.0" m:%s\na\n1\n' % inner, h2 + 'a t:%s\n1\n' % inner,
+                'ver:"3.0" ver:"2.0"\na\n%s\n' % inner]
+    return out
+
+
+RAW_DOCS = _raw_docs()
+
 SCALAR_LITERALS = [
     '9999-12-31T23:59:59Z Auckland', '0001-01-01T00:00:00Z Los_Angeles', '9999-12-31T23:59:59.999999+14:00 Kiritimati',
     '0001-01-01T00:00:00-12:00', '9999-12-31T23:59:59-11:00 Midway', '0001-01-01T00:00:00+13:00 Tongatapu',
@@ -193,6 +212,12 @@ def run(tier):
             cid = len(cases) + 1
             cases.append({'id': cid, 'k': 'outcome', 'strict': False, 'text': [ord(c) for c in s]})
             info[cid] = {'seed': 'random', 'style': 0, 'mutation': 'random', 'at': 0}
+        # hand-written documents: nesting far beyond the depth any well-formed document has (the parser must give up
+        # with its own exception, not with the interpreter's), duplicate `ver` tags, 3.0-only kinds hidden in odd places
+        for s in RAW_DOCS:
+            cid = len(cases) + 1
+            cases.append({'id': cid, 'k': 'outcome', 'strict': False, 'text': [ord(c) for c in s]})
+            info[cid] = {'seed': 'raw', 'style': 0, 'mutation': 'handwritten', 'at': 0}
         for c in list(cases):
             c['single'] = False
             t = c['text']
